@@ -5,7 +5,7 @@
 From Coq Require Import ZArith NArith Reals List String Bool.
 From Flocq Require Import Core BinarySingleNaN.
 From SV Require Import Num.Mod360 Num.Mod360Proofs Num.AngleSites Num.AngleSitesProofs
-                       Num.Dec6 Num.Dec6Proofs SM.FrozenOps SM.FrozenOpsProofs.
+                       Num.Dec6 Num.Dec6Proofs Num.Dec6CarveProofs SM.FrozenOps SM.FrozenOpsProofs.
 Import ListNotations.
 
 (** ------------------------------------------------------------------ (a) range *)
@@ -83,6 +83,29 @@ Proof. exact format6_plain_gen. Qed.
 Theorem c05_carved_prints_negative_zero : forall c x, cfg_base_ok c = true -> carved c x = true ->
   format6 c x = [45; 48]%N.
 Proof. exact carved_prints_negative_zero. Qed.
+
+(** The carve-out is EXACT: the text is "-0" if and only if the input is carved out ... *)
+Theorem c05_negative_zero_iff_carved : forall c x, cfg_base_ok c = true -> (format6 c x = [45; 48]%N <-> carved c x = true).
+Proof. exact negative_zero_iff_carved. Qed.
+
+(** ... which means: no '-0' repair, a sign is printed, and |x|·10^6 <= 1/2 (num/den = |x|·10^6 exactly) *)
+Theorem c05_carved_iff : forall c x, carved c x = true <->
+  neg_zero_fix c = false /\ sign_flag c x = true /\ (2 * fst (num_den x) <= snd (num_den x))%N.
+Proof. exact carved_iff. Qed.
+
+(** for the pinned pipeline (x+0.0, no repair): exactly the non-zero negative values with |x| <= 5e-7 *)
+Theorem c05_carved_pinned_iff : forall x, carved cfg_pinned x = true <->
+  dneg x = true /\ dm x <> 0%N /\ (2 * fst (num_den x) <= snd (num_den x))%N.
+Proof. exact carved_pinned_iff. Qed.
+
+(** an exact zero of either sign prints as "0" when the pipeline formats x+0.0 or repairs '-0' (obligation
+    format_float_exact_zero_has_no_sign); without either, -0.0 prints as "-0" *)
+Theorem c05_exact_zero_prints_zero : forall c x, cfg_base_ok c = true -> zero_sign_ok c = true -> dm x = 0%N -> format6 c x = [48]%N.
+Proof. exact exact_zero_prints_zero. Qed.
+
+Theorem c05_exact_zero_refuted :
+  format6 {| adds_zero := false; places := 6; strips := true; neg_zero_fix := false |} {| dneg := true; dm := 0; de := 0%Z |} = [45; 48]%N.
+Proof. exact exact_zero_refuted. Qed.
 
 Theorem c05_format6_value : forall c x, scaled_value (fmt_parts c x) = scaled6 x.
 Proof. exact format6_value. Qed.
